@@ -385,8 +385,9 @@ class _DF:
     class _Cols:
         names = None
 
-    def __init__(self):
+    def __init__(self, size=0):
         self.index = _DF._Idx()
+        self.index.r = range(size)             # the allocated frame starts with the default index 0..size-1
         self.columns = _DF._Cols()
 
     class _Idx:
@@ -413,18 +414,28 @@ class _PA:
     pre_allocate = ParquetFile.pre_allocate
 
 
+def _pick_i(v, lo, hi):
+    for k in range(lo, hi + 1):
+        if v == k:
+            return k
+    raise ValueError(v)
+
+
 def h_range_index(start: int, step: int, size: int) -> bool:
     """
-    pre: step != 0 and -3 <= step <= 3 and 0 <= size <= 6
+    pre: step != 0 and -3 <= step <= 3 and 1 <= size <= 5 and -2 <= start <= 2
     post: __return__
     """
     # the regenerated range index has exactly `size` labels start, start+step, ... (pandas refuses an index of the
-    # wrong length, so a wrong count surfaces as an exception on read)
+    # wrong length, so a wrong count surfaces as an exception on read).  The three parameters are enumerated by
+    # branching (every start incl. 0, every step incl. 1): which of them the code treats specially is its business;
+    # all integer starts / sizes of the arithmetic itself are the SMT lemma's subject (lemmas.range_index)
+    start, step, size = _pick_i(start, -2, 2), _pick_i(step, -3, 3), _pick_i(size, 1, 5)
     import pandas
     orig = pandas.RangeIndex
     pandas.RangeIndex = _RangeShim
     old = api._pre_allocate
-    api._pre_allocate = lambda *a, **k: (_DF(), {})
+    api._pre_allocate = lambda n, *a, **k: (_DF(n), {})
     try:
         df, _ = _PA(start, step).pre_allocate(size, ["a"], None, None)
     finally:
